@@ -130,7 +130,7 @@ func inject(k *h.Case, g *spec.Gen, prog *spec.Program, baseOut string) *injecti
 		}
 		return &blocks[c[r.IntN(len(c))]]
 	}
-	kinds := []string{"break-outside", "continue-outside", "continue-not-last", "duplicate-case", "duplicate-case-via-const", "second-default", "const-redefined", "text-clash", "movement-clash", "label-is-sublabel", "label-is-script-name", "label-is-text-label"}
+	kinds := []string{"break-outside", "continue-outside", "continue-not-last", "duplicate-case", "duplicate-case-via-const", "second-default", "const-redefined", "text-clash", "movement-clash", "label-is-sublabel", "label-is-script-name", "label-is-text-label", "label-is-movement-label"}
 	kind := kinds[k.Index%len(kinds)]
 	switch kind {
 	case "break-outside":
@@ -246,7 +246,7 @@ func inject(k *h.Case, g *spec.Gen, prog *spec.Program, baseOut string) *injecti
 		items2 = append(items2, c2)
 		prog.Items = append(items2, items[i2:]...)
 		return &injection{kind, []int{c2.ID}}
-	case "text-clash", "movement-clash", "label-is-text-label":
+	case "text-clash", "movement-clash", "label-is-text-label", "label-is-movement-label":
 		rp, err := spec.Resolve(prog, prog.Switches)
 		if err != nil {
 			return nil
@@ -288,6 +288,33 @@ func inject(k *h.Case, g *spec.Gen, prog *spec.Program, baseOut string) *injecti
 				})
 			}
 			return &injection{kind, ids}
+		case "label-is-movement-label":
+			// a label equal to one of the hoisted movement labels of the script it is written in
+			var cands []blockCtx
+			for _, bc := range blocks {
+				if bc.single || bc.inPory {
+					continue
+				}
+				for _, m := range lm.Moves {
+					if strings.HasPrefix(m.Label, bc.script+"_Movement_") {
+						cands = append(cands, bc)
+						break
+					}
+				}
+			}
+			if len(cands) == 0 {
+				return nil
+			}
+			bc := cands[r.IntN(len(cands))]
+			var names []string
+			for _, m := range lm.Moves {
+				if strings.HasPrefix(m.Label, bc.script+"_Movement_") {
+					names = append(names, m.Label)
+				}
+			}
+			st := &spec.Label{ID: prog.NewID(), Name: names[r.IntN(len(names))]}
+			insertStmt(bc.b, r.IntN(safeLen(bc.b)+1), st)
+			return &injection{kind, []int{st.ID}}
 		default:
 			var names []string
 			for _, t := range lm.Texts {
@@ -470,7 +497,7 @@ func runC20(ctx *h.Ctx) int {
 		k.Nontrivial("probe", word, at, len(prog.Items))
 	})
 	return ctx.Finish(
-		"valid generated files with exactly one injected violation at a random position under scrambled layouts: break outside loop/switch (incl. inline map scripts, poryswitch cases, after a closed loop), continue outside a loop (incl. in a switch outside loops), continue not last in its block, duplicate case value (literal and via a constant), second default, redefined constant, text/movement statement named like a generated label, label statement equal to a generated sub-label of its script / the script's own name / a text label (anywhere, incl. unreachable code). Oracle: the result is an error (never output), it is a located error, and its start line lies inside the offending construct's source line range (either occurrence for clashes between two definitions). Plus the stale-scope probe: a fresh script / inline map script with a bare break or continue appended to any valid file must be rejected on that very line. distinct = (kind, error line, source length / 16)",
+		"valid generated files with exactly one injected violation at a random position under scrambled layouts: break outside loop/switch (incl. inline map scripts, poryswitch cases, after a closed loop), continue outside a loop (incl. in a switch outside loops), continue not last in its block, duplicate case value (literal and via a constant), second default, redefined constant, text/movement statement named like a generated label, label statement equal to a generated sub-label of its script / the script's own name / a text label / one of the script's hoisted movement labels (anywhere, incl. unreachable code). Oracle: the result is an error (never output), it is a located error, and its start line lies inside the offending construct's source line range (either occurrence for clashes between two definitions). Plus the stale-scope probe: a fresh script / inline map script with a bare break or continue appended to any valid file must be rejected on that very line. distinct = (kind, error line, source length / 16)",
 		ctx.N(500, 5000),
 		[]string{"the base program (before injection) compiles; the injected construct is the only violation"})
 }
